@@ -5,6 +5,7 @@ package rtpkt
 
 import (
 	"encoding/binary"
+	"fmt"
 	"net"
 	"net/netip"
 	"time"
@@ -92,6 +93,9 @@ type Spec struct {
 	HBH, E2E bool
 	Epic     bool
 	Payload  []byte
+	// SegLens, if set, gives the segment lengths (up to 63 hops each, total up to 64 in practice);
+	// Pos is then the index of the local hop over the whole path. Default {3, 0, 0}.
+	SegLens [3]int
 }
 
 func mac(info path.InfoField, hf path.HopField) [path.MacLen]byte {
@@ -111,11 +115,18 @@ func Build(s Spec) []byte {
 	}
 	beta := uint16(0x1234)
 	info := path.InfoField{ConsDir: s.ConsDir, SegID: beta, Timestamp: ts}
-	hops := []path.HopField{
-		{ConsIngress: 0, ConsEgress: 41, ExpTime: 63, Mac: [6]byte{1, 2, 3, 4, 5, 6}},
-		{ConsIngress: 42, ConsEgress: 43, ExpTime: 63, Mac: [6]byte{2, 2, 3, 4, 5, 6}},
-		{ConsIngress: 44, ConsEgress: 0, ExpTime: 63, Mac: [6]byte{3, 2, 3, 4, 5, 6}},
+	segLens := s.SegLens
+	if segLens[0] == 0 {
+		segLens = [3]int{3, 0, 0}
 	}
+	nHops := segLens[0] + segLens[1] + segLens[2]
+	hops := make([]path.HopField, nHops)
+	for i := range hops {
+		hops[i] = path.HopField{ConsIngress: uint16(40 + 2*i), ConsEgress: uint16(41 + 2*i), ExpTime: 63,
+			Mac: [6]byte{byte(i + 1), 2, 3, 4, 5, 6}}
+	}
+	hops[0].ConsIngress = 0
+	hops[nHops-1].ConsEgress = 0
 	cur := s.Pos
 	idx := cur // hop fields are stored in traversal order whatever the construction direction
 	local := path.HopField{ConsIngress: s.In, ConsEgress: s.Eg, ExpTime: 63}
@@ -138,12 +149,27 @@ func Build(s Spec) []byte {
 		}
 	}
 	hops[idx] = local
+	var infos []path.InfoField
+	curINF, first := 0, 0
+	for i, l := range segLens {
+		if l == 0 {
+			break
+		}
+		if cur >= first && cur < first+l {
+			curINF = i
+			infos = append(infos, info)
+		} else {
+			infos = append(infos, path.InfoField{ConsDir: s.ConsDir, SegID: uint16(0x100 + i), Timestamp: ts})
+		}
+		first += l
+	}
 	dec := &scion.Decoded{
 		Base: scion.Base{
-			PathMeta: scion.MetaHdr{CurrINF: 0, CurrHF: uint8(cur), SegLen: [3]uint8{3, 0, 0}},
-			NumINF:   1, NumHops: 3,
+			PathMeta: scion.MetaHdr{CurrINF: uint8(curINF), CurrHF: uint8(cur),
+				SegLen: [3]uint8{uint8(segLens[0]), uint8(segLens[1]), uint8(segLens[2])}},
+			NumINF: len(infos), NumHops: nHops,
 		},
-		InfoFields: []path.InfoField{info},
+		InfoFields: infos,
 		HopFields:  hops,
 	}
 	sc := &slayers.SCION{Version: 0, TrafficClass: 0, FlowID: 0x12345,
@@ -344,6 +370,61 @@ func SrcOf(via uint16) *net.UDPAddr {
 	default:
 		return net.UDPAddrFromAddrPort(netip.MustParseAddrPort(SiblingAddr))
 	}
+}
+
+// V6Host / V6Far are IPv6 host addresses (a longer address header moves every length boundary).
+var (
+	V6Host = netip.MustParseAddr("fd00::77")
+	V6Far  = netip.MustParseAddr("2001:db8::4")
+)
+
+// LongPaths returns packets with paths of nHops hop fields (4..64) split into 1, 2 and 3 segments,
+// with the local hop near the start, in the middle and near the end, for the outcomes that make the
+// router build an SCMP reply (bad MAC, expired, wrong ingress, unknown egress, traceroute) and for
+// plain transit, with IPv4 and IPv6 host addresses.
+func LongPaths(nHops int, payload []byte, full bool) []Named {
+	var out []Named
+	splits := [][3]int{{nHops, 0, 0}}
+	if nHops >= 4 {
+		splits = append(splits, [3]int{nHops / 2, nHops - nHops/2, 0})
+	}
+	if nHops >= 6 {
+		splits = append(splits, [3]int{nHops / 3, nHops / 3, nHops - 2*(nHops/3)})
+	}
+	for si, sl := range splits {
+		if sl[0] > 63 || sl[1] > 63 || sl[2] > 63 || (!full && si == 1) {
+			continue
+		}
+		for pi, pos := range []int{1, nHops / 2, nHops - 2} {
+			if pos < 1 || pos > nHops-2 || (!full && pi == 1) {
+				continue
+			}
+			for _, v6 := range []bool{false, true} {
+				src, dst := FarHost, HostAddr
+				if v6 {
+					src, dst = V6Far, V6Host
+				}
+				base := Spec{Via: 1, In: 1, Eg: 2, ConsDir: true, Pos: pos, SrcIA: FarIA, DstIA: ChildIA,
+					SrcHost: src, DstHost: dst, SegLens: sl, L4: "udp", DstPort: 40001, Payload: payload}
+				name := func(k string) string {
+					return fmt.Sprintf("long-%s-h%d-s%d-p%d-v6%v", k, nHops, si, pos, v6)
+				}
+				add := func(k string, m func(*Spec)) {
+					x := base
+					m(&x)
+					out = append(out, Named{name(k), x.Via, Build(x)})
+				}
+				add("transit", func(x *Spec) {})
+				add("badmac", func(x *Spec) { x.BadMAC = true })
+				add("expired", func(x *Spec) { x.Expired = true })
+				add("wrongin", func(x *Spec) { x.Via = 2 })
+				add("noegress", func(x *Spec) { x.Eg = 9 })
+				add("trreq", func(x *Spec) { x.Alert = true; x.L4 = "trreq" })
+				add("badmac-rev", func(x *Spec) { x.ConsDir = false; x.Via = 2; x.BadMAC = true })
+			}
+		}
+	}
+	return out
 }
 
 // Named is a corpus entry.
